@@ -50,9 +50,9 @@ def cpu_seconds(pid):
 
 
 class Worker:
-    def __init__(self, wid, hbin, cases, outdir, start, end):
+    def __init__(self, wid, hbin, cases, outdir, start, end, stride=1, offset=0):
         self.wid, self.hbin, self.cases, self.outdir = wid, hbin, cases, outdir
-        self.start, self.end = start, end
+        self.start, self.end, self.stride, self.offset = start, end, stride, offset
         self.results = {}
         self.spawns = 0
         self.proc = None
@@ -66,7 +66,7 @@ class Worker:
         if os.path.exists(self.out):
             os.remove(self.out)
         open(self.out, "w").close()
-        cmd = 'ulimit -v %d; exec "$0" work "$1" "$2" %d %d' % (MEM_KB, start, self.end)
+        cmd = 'ulimit -v %d; exec "$0" work "$1" "$2" %d %d %d %d' % (MEM_KB, start, self.end, self.stride, self.offset)
         self.proc = subprocess.Popen(["sh", "-c", cmd, self.hbin, self.cases, self.out],
                                      stdout=subprocess.DEVNULL, stderr=subprocess.DEVNULL, env=env_base())
         self.fh = open(self.out, "r")
@@ -161,8 +161,8 @@ def run_oracle(hbin, cases_path, ncases, outdir, nwork=NWORK):
         if f.endswith(".out"):
             os.remove(os.path.join(outdir, f))
     nwork = max(1, min(nwork, ncases))
-    per = (ncases + nwork - 1) // nwork
-    ws = [Worker(k, hbin, cases_path, outdir, k * per, min(ncases, (k + 1) * per)) for k in range(nwork)]
+    # round-robin assignment: the expensive inputs (whole libraries first, deep recipes last) spread over all workers
+    ws = [Worker(k, hbin, cases_path, outdir, 0, ncases, nwork, k) for k in range(nwork)]
     aborted = False
     while True:
         alive = False
@@ -199,7 +199,7 @@ def open_findings():
     return [e for e in known_findings(PROP) if e.get("kind") == "open" and isinstance(e.get("match"), dict)]
 
 
-def match_finding(entries, st, detail, text):
+def match_finding(entries, st, detail, text, cls=""):
     """An open entry matches iff its class equals the outcome class and its regexes match the panic/violation
     detail and the comment-stripped, whitespace-collapsed, lower-cased input."""
     for e in entries:
@@ -211,6 +211,10 @@ def match_finding(entries, st, detail, text):
         if m.get("consecutive_ids"):
             g = re.search(m["detail_regex"], detail)
             if not g or len(g.groups()) < 2 or int(g.group(1)) != int(g.group(2)) + 1:
+                continue
+        if m.get("shape"):
+            fam, _, n, _ = class_parts(cls)
+            if fam != m["shape"] or n is None or n < m.get("min_chain_length", m.get("min_depth", 0)):
                 continue
         if m.get("input_regex") and not re.search(m["input_regex"], norm_text(text)):
             continue
@@ -224,9 +228,38 @@ def match_finding(entries, st, detail, text):
 # ----------------------------------------------------------------------------------------------
 # evaluation of the oracle results + loop replay
 # ----------------------------------------------------------------------------------------------
+_EXPAND = {}
+HBIN = [None]
+
+
 def case_text(line):
+    """(class, text) of a case line; recipe cases (`@shape,n,..`) are expanded by the harness"""
     cls, _, hx = line.partition(" ")
-    return cls, bytes.fromhex(hx.strip()).decode("utf-8")
+    hx = hx.strip()
+    if hx.startswith("@"):
+        if hx not in _EXPAND:
+            rc, out = run([HBIN[0], "expand", hx], timeout=600)
+            _EXPAND.clear()
+            _EXPAND[hx] = out if rc == 0 else ""
+        return cls, _EXPAND[hx]
+    return cls, bytes.fromhex(hx).decode("utf-8")
+
+
+def class_parts(cls):
+    """deep/<shape>/<n>/<c|u>[@2m], long_chain/<shape>/<n>[@2m], nested_interface_subprogram_unclosed/<n>[@2m]"""
+    two = cls.endswith("@2m")
+    p = cls[:-3].split("/") if two else cls.split("/")
+    fam = p[0]
+    n = None
+    for x in p[1:]:
+        if x.isdigit():
+            n = int(x)
+    return fam, (p[1] if len(p) > 2 else None), n, two
+
+
+# shapes of class `deep` that are not recursive in the grammar the parser accepts (it fails at the second level):
+# they must still give a diagnostic, but not necessarily "Nesting too deep"
+NOT_RECURSIVE = {"external_name", "package", "record"}
 
 
 def loop_case(o):
@@ -474,7 +507,9 @@ def run_model(mbin, mode, lines, path):
     with open(path + ".in", "w") as f:
         f.write("\n".join(lines) + ("\n" if lines else ""))
     with open(path + ".in") as fin, open(path + ".out", "w") as fout:
-        p = subprocess.run([mbin, mode], stdin=fin, stdout=fout, stderr=subprocess.PIPE)
+        # the extracted list functions are not tail recursive: inputs of > 10^6 tokens need a large stack
+        p = subprocess.run(["sh", "-c", 'ulimit -s unlimited 2>/dev/null || ulimit -s 4000000 2>/dev/null; exec "$0" "$1"', mbin, mode],
+                           stdin=fin, stdout=fout, stderr=subprocess.PIPE)
     if p.returncode != 0:
         return None, p.stderr.decode("utf-8", "replace")
     return open(path + ".out").read().split("\n")[:len(lines)], ""
@@ -502,7 +537,16 @@ def oracle_stage(res, hbin, mbin, cases_path, tag, stats, kf_entries, kf_hits, l
         o = json.loads(js)
         parsed[i] = {k: o.get(k) for k in ("st", "nt", "nd", "trace", "units", "last_diag", "tail_tok")} if o.get("st") == "ok" else o
         st = o.get("st")
-        stats["classes"][cls] = stats["classes"].get(cls, 0) + 1
+        fam, shape, depth, two = class_parts(cls)
+        ckey = fam + ("@2m" if two else "")
+        stats["classes"][ckey] = stats["classes"].get(ckey, 0) + 1
+        if fam == "deep" and st == "ok" and depth is not None and depth > 256:
+            # regression of F41: beyond the nesting limit the parser reports instead of recursing
+            if o.get("nd", 0) < 1 or (shape not in NOT_RECURSIVE and o.get("ntd", 0) < 1):
+                o.setdefault("viol", []).append(
+                    "nesting depth %d of shape `%s`: %d diagnostics, %d of them `Nesting too deep` (expected at least one)"
+                    % (depth, shape, o.get("nd", 0), o.get("ntd", 0)))
+            stats["deep_beyond_limit"] = stats.get("deep_beyond_limit", 0) + 1
         stats["outcomes"][st] = stats["outcomes"].get(st, 0) + 1
         nontrivial = st != "ok" or (o.get("nt", 0) >= 3 and (len(o.get("units", [])) > 0 or o.get("nd", 0) > 0))
         res.count_case(line, nontrivial)
@@ -533,9 +577,9 @@ def oracle_stage(res, hbin, mbin, cases_path, tag, stats, kf_entries, kf_hits, l
                                      "%d to %d (tokens: %d)" % (stuck[0][0], stuck[0][1], tr[0][2]))
                 o["trace"] = tr[:12]
             detail = " | ".join(o["viol"])
-            e = match_finding(kf_entries, st, detail, text)
+            e = match_finding(kf_entries, st, detail, text, cls)
             if e is not None:
-                h = kf_hits.setdefault(e.get("id", "?"), {"n": 0, "example": text[:200], "entry": e})
+                h = kf_hits.setdefault(e.get("id", "?"), {"n": 0, "example": "%s: %s" % (cls, text[:160]), "entry": e})
                 h["n"] += 1
                 continue
             nviol += 1
@@ -543,7 +587,8 @@ def oracle_stage(res, hbin, mbin, cases_path, tag, stats, kf_entries, kf_hits, l
                 res.violation("%s: %s" % ({"panic": "parse_design_source panics", "hang": "parse_design_source does not terminate",
                                            "crash": "the parser process died"}.get(st, "returned syntax is not in bounds / consistent"),
                                           detail[:500]),
-                              {"kind": "input", "class": cls, "text": text, "case": line if len(line) < 100000 else None,
+                              {"kind": "input", "class": cls, "text": text if len(text) <= 200000 else text[:2000] + " ...",
+                               "case": line if len(line) < 400000 else None,
                                "outcome": st, "violations": o["viol"], "result": {k: v for k, v in o.items() if k not in ("kinds",)},
                                "replay_cmd": "./check C02 --replay <this file>"})
     # correspondence A: loop replay
@@ -672,6 +717,7 @@ def main(tier, replay=None):
     if not ok:
         res.violation("extracted model build failed", {"kind": "build", "log": log[-3000:]}, no_failing_input=True)
         return res.finish()
+    HBIN[0] = hbin
     stats = {"classes": {}, "outcomes": {}, "sums": {}, "unit_kinds": {}, "model_outcomes": {}, "ops": {}}
     kf_entries = open_findings()
     kf_hits = {}
@@ -685,7 +731,10 @@ def main(tier, replay=None):
             ops_stage(res, hbin, mbin, ("opsfile", path), "replay_ops", stats, ops_samples)
         else:
             path = os.path.join(d, "replay.cases")
-            open(path, "w").write("%s %s\n" % (rp.get("class", "replay"), rp["text"].encode("utf-8").hex()))
+            if rp.get("case"):
+                open(path, "w").write(rp["case"] + "\n")
+            else:
+                open(path, "w").write("%s %s\n" % (rp.get("class", "replay"), rp["text"].encode("utf-8").hex()))
             oracle_stage(res, hbin, mbin, path, "replay", stats, kf_entries, kf_hits, loop_samples)
     else:
         cpath = os.path.join(d, "corpus.cases")
@@ -695,9 +744,14 @@ def main(tier, replay=None):
         if os.path.exists(copath):
             ops_stage(res, hbin, mbin, ("opsfile", copath), "corpus_ops", stats, ops_samples)
         gpath = os.path.join(d, "gen.cases")
-        # the nesting depths that overflow the parser's stack are generated only while that finding is listed as open
-        deep = any(e["match"].get("min_open_constructs") for e in kf_entries)
-        rc, out = run([hbin, "gen", str(seed()), tier + ("+deep" if deep else ""), gpath], timeout=3000)
+        # the lengths at which the OPEN findings F53 (long chains) / F54 (nested interface subprograms) manifest are
+        # generated only while known_findings.json lists them as open; the safe lengths always run
+        flags = ""
+        if any(e["match"].get("shape") == "long_chain" for e in kf_entries):
+            flags += "+chain"
+        if any(e["match"].get("shape") == "nested_interface_subprogram_unclosed" for e in kf_entries):
+            flags += "+nestproc"
+        rc, out = run([hbin, "gen", str(seed()), tier + flags, gpath], timeout=3000)
         if rc != 0:
             res.violation("harness c02 gen crashed", {"kind": "harness", "log": out[-2000:]}, no_failing_input=True)
             return res.finish()
@@ -728,6 +782,7 @@ def main(tier, replay=None):
     if stats.get("abandoned_streams"):
         res.coverage["abandoned_streams"] = stats["abandoned_streams"]
         res.coverage["inputs_not_evaluated"] = stats.get("not_evaluated", 0)
+    res.coverage["deep_inputs_beyond_nesting_limit"] = stats.get("deep_beyond_limit", 0)
     res.coverage["known_finding_inputs"] = {k: v["n"] for k, v in kf_hits.items()}
     res.coverage["exhaustive"] = False
     res.coverage["rule"] = (
@@ -740,7 +795,10 @@ def main(tier, replay=None):
         "with fuzz mutations; keyword/delimiter soup; arbitrary bytes decoded as Latin-1; non-Latin-1 streams; the resumed loop (0-3 pending context "
         "items x 18 failing unit heads that stop at the next keyword x more items x a second failing head x 9 good units with "
         "the closing `;` kept, typed as `:` or missing x 5 trailers; sampled 1/6 in quick); every top-level catalogue entry "
-        "ending in `:`; nesting depths 50/200/600 of 14 recursive constructs; exhaustively every sequence of <= 3 (thorough: 4) "
+        "ending in `:`; nesting depths 50/200/600/5000/20000/100000 of 28 "
+        "nesting shapes, closed and unclosed, each on the main thread and on a 2 MiB-stack thread (beyond depth 256: a "
+        "`Nesting too deep` diagnostic is required); iterative chains (9 shapes) and unclosed nested interface subprograms at safe "
+        "lengths, at the lengths of the open findings F53/F54 only while these are listed in known_findings.json; exhaustively every sequence of <= 3 (thorough: 4) "
         "tokens over a 14-word alphabet. "
         "non-trivial = the input has >= 3 tokens and yields a unit or a diagnostic (or violates); distinct by hash of the "
         "input.  Cursor programs: 1-17 operations on streams of 0-30 tokens, non-trivial = >= 3 operations")
